@@ -74,7 +74,10 @@ def module_traces(names, optimize_opts=(False, True)):
 def validate(v, tag, name, traces, timeout=3000):
     wd = workdir(name)
     path = os.path.join(wd, 'traces.ndjson')
-    write_ndjson(path, [{k: t[k] for k in ('phase', 'claims', 'events', 'final')} for t in traces])
+    EK = ('m', 'out', 'bytes', 'phase', 'len', 'top', 'mem', 'memlen', 'cc', 'claims', 'syms')
+    write_ndjson(path, [{'phase': t['phase'], 'claims': t['claims'], 'final': t['final'],
+                         'events': [{k: e[k] for k in EK} for e in t['events']]} for t in traces])
+    pi2v.log(f'[{tag}] {name}: trace file {os.path.getsize(path) >> 20} MB')
     res = run_tlc('Trace_Gen', 'SPECIFICATION Spec\nCHECK_DEADLOCK FALSE\n', wd, env={'CASES': path}, timeout=timeout)
     tlc_must_be_clean(res, name)
     if len(res.dones) != len(traces):
